@@ -112,7 +112,7 @@ func (x *c18) connect(group, id string) *stream {
 	x.smu.Lock()
 	s.n = len(x.streams)
 	x.streams = append(x.streams, s)
-	key := group + "/" + id
+	key := group + "\x00" + id // group and id may both contain slashes
 	if old := x.cur[key]; old != nil {
 		old.replaced.Store(true)
 	}
@@ -180,7 +180,7 @@ func (x *c18) disconnect(s *stream) {
 	s.byClient.Store(true)
 	s.cancel()
 	x.smu.Lock()
-	key := s.group + "/" + s.id
+	key := s.group + "\x00" + s.id
 	if x.cur[key] == s {
 		delete(x.cur, key)
 	}
@@ -340,7 +340,7 @@ func (x *c18) churnScenario(r *rand.Rand, cfg *poll.Config, fail func(string, st
 	for e := 0; e < nev; e++ {
 		g, id := pick(r, groups...), pick(r, ids...)
 		x.smu.Lock()
-		curS := x.cur[g+"/"+id]
+		curS := x.cur[g+"\x00"+id]
 		x.smu.Unlock()
 		switch r.Intn(5) {
 		case 0, 1:
@@ -374,7 +374,7 @@ func (x *c18) churnScenario(r *rand.Rand, cfg *poll.Config, fail func(string, st
 	confirmed := map[string]*stream{}
 	for _, s := range current {
 		if x.barrier(s, 4*time.Second) {
-			confirmed[s.group+"/"+s.id] = s
+			confirmed[s.group+"\x00"+s.id] = s
 			continue
 		}
 		if s.eof.Load() && unlimited {
@@ -389,7 +389,7 @@ func (x *c18) churnScenario(r *rand.Rand, cfg *poll.Config, fail func(string, st
 	x.smu.Unlock()
 	for _, s := range all {
 		if s.replaced.Load() && !s.byClient.Load() {
-			if ns := confirmed[s.group+"/"+s.id]; ns != nil && ns != s {
+			if ns := confirmed[s.group+"\x00"+s.id]; ns != nil && ns != s {
 				ok := false
 				for t := 0; t < 300 && !ok; t++ {
 					ok = s.eof.Load()
@@ -431,6 +431,11 @@ func (x *c18) churnScenario(r *rand.Rand, cfg *poll.Config, fail func(string, st
 			id = pick(r, append(ids, "nobody")...)
 		}
 		p2 = append(p2, x.send(typ, pick(r, append(groups, "gz")...), id, 2))
+		if r.Intn(6) == 0 {
+			// an address whose "group/id" string equals that of a listener with a slash in its id (group g, id a/b):
+			// group "g/a", id "b" is another group, without listeners
+			p2 = append(p2, x.send(typ, pick(r, groups...)+"/a", "b", 2))
+		}
 		if cfg.BufferSize < 100 {
 			time.Sleep(300 * time.Microsecond)
 		}
@@ -515,10 +520,10 @@ func (x *c18) judge(confirmed map[string]*stream, fail func(string, string, ...a
 		}
 		// ---- strong rules for the stable phase
 		x.c.rep.Hit("ledger.stable-phase-message")
-		target := confirmed[m.group+"/"+m.id]
+		target := confirmed[m.group+"\x00"+m.id]
 		groupHas := false
 		for k := range confirmed {
-			if strings.HasPrefix(k, m.group+"/") {
+			if strings.HasPrefix(k, m.group+"\x00") {
 				groupHas = true
 			}
 		}
@@ -577,7 +582,7 @@ func (x *c18) limitScenario(r *rand.Rand, cfg *poll.Config, fail func(string, st
 			fail("listener-not-registered", "stream g/id%d within the limit of %d was not registered", i, max)
 			return
 		}
-		confirmed["g/"+s.id] = s
+		confirmed["g\x00"+s.id] = s
 	}
 	extra := x.connect("g", "one-too-many")
 	closed := false
@@ -596,7 +601,7 @@ func (x *c18) limitScenario(r *rand.Rand, cfg *poll.Config, fail func(string, st
 	x.c.rep.Hit("region.limit-reached")
 	// reconnect of a registered id at a full table
 	victim := fmt.Sprintf("id%d", r.Intn(max))
-	old := confirmed["g/"+victim]
+	old := confirmed["g\x00"+victim]
 	ns := x.connect("g", victim)
 	if !x.barrier(ns, 4*time.Second) {
 		if ns.eof.Load() {
@@ -605,7 +610,7 @@ func (x *c18) limitScenario(r *rand.Rand, cfg *poll.Config, fail func(string, st
 			fail("listener-not-registered", "the reconnected stream g/%s does not receive messages addressed to it", victim)
 		}
 	} else {
-		confirmed["g/"+victim] = ns
+		confirmed["g\x00"+victim] = ns
 		ok := false
 		for t := 0; t < 300 && !ok; t++ {
 			ok = old.eof.Load()
